@@ -72,9 +72,10 @@ type antiTerm struct {
 }
 
 type groupState struct {
-	share   float64 // sum of shares of the sharers (fraction of one device)
-	sharers int
-	tainted bool // has a terminating or merely nominated sharer: not used as a witness
+	share    float64 // sum of shares of the sharers (fraction of one device)
+	sharers  int
+	tainted  bool // has a terminating or merely nominated sharer: not used as a witness
+	reserved bool // its reservation pod exists (and holds its pod slot)
 }
 
 type nodeRes struct {
@@ -143,6 +144,7 @@ func (rm *residualModel) addPod(p *v1.Pod, nodeName string, groups []string, wea
 			if n.groups[g] == nil {
 				n.groups[g] = &groupState{}
 			}
+			n.groups[g].reserved = true
 		} else {
 			n.whole += req[gpuRes]
 		}
@@ -225,6 +227,15 @@ func newResidualModel(m *oracle.Model, events []sched.Event) *residualModel {
 			continue
 		}
 		rm.addPod(p, e.Node, e.GPUGroups, e.Kind == "pipeline")
+	}
+	// a GPU group without reservation pod (created in this cycle, or its reservation pod is still to come) will get
+	// one: that pod slot is taken
+	for _, n := range rm.nodes {
+		for _, gs := range n.groups {
+			if !gs.reserved {
+				n.used[v1.ResourcePods]++
+			}
+		}
 	}
 	return rm
 }
